@@ -24,6 +24,10 @@ def compile_scenario(cpp, workdir, defines=()):
     return ll
 
 
+def has_check_reach(items):
+    return any(isinstance(cond, str) and cond == 'REACH' for (tid, en, cond, msg) in items)
+
+
 def analyse(ll, nthreads, opts=None, log=None, mode='sc'):
     """returns dict with verdicts"""
     t0 = time.time()
@@ -42,7 +46,16 @@ def analyse(ll, nthreads, opts=None, log=None, mode='sc'):
         else:
             bad = en
         groups.setdefault((kind, msg), []).append(bad)
+    # one combined query for everything that must be unreachable; split only if it is satisfiable
+    must_unsat = [(k, b) for k, b in sorted(groups.items(), key=lambda x: x[0]) if k[0] in ('ASSERT', 'BOUND')]
+    split = True
+    if len(must_unsat) > 1:
+        r, model, q = M.solve([z3.Or(*[z3.Or(*b) for _, b in must_unsat])], 'all %d assertion groups at once: %s' % (len(must_unsat), ' | '.join(k[1][:40] for k, _ in must_unsat)[:600]))
+        if r == 'unsat':
+            split = False
+            res['n_assertion_groups'] = len(must_unsat)
     for (kind, msg), bads in sorted(groups.items(), key=lambda x: x[0]):
+        if kind in ('ASSERT', 'BOUND') and not split: continue
         r, model, q = M.solve([z3.Or(*bads)], '%s: %s' % (kind.lower(), msg))
         if r == 'unknown':
             res['undecided'].append('%s: %s (%s)' % (kind, msg, q.get('reason')))
@@ -52,7 +65,7 @@ def analyse(ll, nthreads, opts=None, log=None, mode='sc'):
         elif kind == 'BOUND':
             if r == 'sat': res['undecided'].append('bound insufficient: ' + msg)
         elif r == 'sat':
-            res['violations'].append({'assertion': msg, 'trace': M.trace(model)})
+            res['violations'].append({'assertion': msg, 'trace': M.trace(model), 'nondet': nondet_of(M, model)})
     # lifetime
     uaf = M.uaf_items()
     if uaf:
@@ -61,23 +74,175 @@ def analyse(ll, nthreads, opts=None, log=None, mode='sc'):
             which = [(f, e) for (f, e, c) in uaf if z3.is_true(model.eval(c, model_completion=True))]
             f, e = which[0]
             res['violations'].append({'assertion': 'memory: object %s touched after its release (%s then %s)' % (sc.obj_by_base[f.obj].name, f.site, e.site),
-                                      'trace': M.trace(model)})
+                                      'trace': M.trace(model), 'nondet': nondet_of(M, model)})
         elif r == 'unknown': res['undecided'].append('lifetime query: ' + str(q.get('reason')))
     dl = M.deadlock_cond()
     if dl is not None:
         r, model, q = M.solve([dl], 'deadlock: a thread blocked forever')
         if r == 'sat':
-            res['violations'].append({'assertion': 'deadlock: a thread stays blocked in wait() although every other thread has finished', 'trace': M.trace(model)})
+            res['violations'].append({'assertion': 'deadlock: a thread stays blocked in wait() although every other thread has finished', 'trace': M.trace(model), 'nondet': nondet_of(M, model)})
         elif r == 'unknown': res['undecided'].append('deadlock query: ' + str(q.get('reason')))
     # every thread can complete (sanity / vacuity)
-    r, model, q = M.solve([M.all_complete], 'witness: all threads can run to completion')
-    if r != 'sat': res['undecided'].append('no execution in which all threads complete (scenario vacuous?)')
-    else: res['complete_witness'] = True
+    if res['reached'] and has_check_reach(items):
+        res['complete_witness'] = True      # a witness inside vf_check is only reachable when every thread ran to completion
+    else:
+        r, model, q = M.solve([M.all_complete], 'witness: all threads can run to completion')
+        if r != 'sat': res['undecided'].append('no execution in which all threads complete (scenario vacuous?)')
+        else: res['complete_witness'] = True
     res['solver_s'] = round(M.stats['solver_s'], 2)
     res['rf_edges'] = M.stats['rf_edges']
     res['n_queries'] = M.stats['queries']
     res['M'] = M
     return res
+
+
+# ---------------------------------------------------------------------------------------------- check.py integration
+def schedule_of(trace, nthreads):
+    return [(row['tid'], row['sched']) for row in trace if 1 <= row['tid'] <= nthreads]
+
+
+def nondet_of(M, model):
+    out = []
+    for x in M.sc.nd_syms:
+        n = x.decl().name().split('_')
+        v = model.eval(x, model_completion=True).as_long()
+        if v >= 1 << (x.size() - 1): v -= 1 << x.size()
+        out.append((int(n[1]), int(n[2]), v))
+    out.sort()
+    return [(t, v) for (t, k, v) in out]
+
+
+def run_scenario(spec):
+    """child-process entry: spec = dict(name, cpp, defines, nthreads, opts, workdir, replay). Returns a picklable summary."""
+    t0 = time.time()
+    out = {'name': spec['name'], 'defines': list(spec.get('defines', ())), 'nthreads': spec['nthreads'], 'violations': [], 'undecided': [],
+           'status': 'done'}
+    import signal, resource
+    class _Timeout(Exception): pass
+    def _alarm(sig, frm): raise _Timeout()
+    try:
+        resource.setrlimit(resource.RLIMIT_AS, (int(spec.get('mem_gb', 10)) << 30, resource.RLIM_INFINITY))
+    except Exception: pass
+    signal.signal(signal.SIGALRM, _alarm)
+    signal.alarm(int(spec.get('timeout_s', 900)))
+    try:
+        wd = os.path.join(spec['workdir'], spec['name'])
+        ll = compile_scenario(spec['cpp'], wd, spec.get('defines', ()))
+        r = analyse(ll, spec['nthreads'], spec.get('opts'), mode=spec.get('mode', 'sc'))
+        M = r.pop('M')
+        out.update({k: r[k] for k in ('events', 'paths', 'passes', 'symex_s', 'solver_s', 'rf_edges', 'n_queries', 'shared_objects', 'reached')})
+        out['queries'] = r['queries']
+        out['undecided'] = r['undecided']
+        out['complete_witness'] = r.get('complete_witness', False)
+        out['functions'] = sorted(set(f for f in (e.site.split(':')[0] for e in M.events)))
+        exe = None
+        for v in r['violations']:
+            sch = schedule_of(v['trace'], spec['nthreads'])
+            rec = {'assertion': v['assertion'], 'schedule': sch, 'nondet': v['nondet'],
+                   'trace': [{k: row[k] for k in ('clk', 'tid', 'kind', 'order', 'obj', 'read', 'write', 'site')} for row in v['trace']]}
+            if spec.get('replay', True):
+                import e2replay
+                try:
+                    if exe is None: exe = e2replay.build(ll, wd, sanitize=False)
+                    rc, err = e2replay.run(exe, sch, v['nondet'], wd)
+                    ok, how = e2replay.classify(rc, err)
+                    if not ok and v['assertion'].startswith('memory:'):
+                        # lifetime violations do not crash a native run by themselves: confirm with valgrind under the same schedule
+                        rc, err = e2replay.run(exe, sch, v['nondet'], wd, valgrind=True)
+                        ok, how = e2replay.classify(rc, err)
+                except Exception as ex:
+                    ok, how = False, 'replay machinery failed: %s' % ex
+                rec['reproduced'] = ok; rec['how'] = how
+            out['violations'].append(rec)
+    except irsym.Unsupported as ex:
+        out['status'] = 'unsupported'; out['undecided'] = ['unsupported: %s' % ex]
+    except _Timeout:
+        out['status'] = 'timeout'; out['undecided'] = ['not decided within %d s' % int(spec.get('timeout_s', 900))]
+    except MemoryError:
+        out['status'] = 'memout'; out['undecided'] = ['not decided within the memory limit']
+    except Exception as ex:
+        out['status'] = 'error'; out['undecided'] = ['internal error: %s' % traceback.format_exc()[-1500:]]
+    signal.alarm(0)
+    out['wall_s'] = round(time.time() - t0, 2)
+    return out
+
+
+def replay(rep):
+    """check.py --replay for an E2 replay file"""
+    import e2replay, tempfile
+    wd = tempfile.mkdtemp(prefix='vf_e2replay_')
+    try:
+        cpp = rep['cpp'] if os.path.isabs(rep['cpp']) else os.path.join(VERIF, 'harness', rep['cpp'])
+        ll = compile_scenario(cpp, wd, rep.get('defines', ()))
+        exe = e2replay.build(ll, wd, sanitize=False)
+        rc, err = e2replay.run(exe, [tuple(x) for x in rep['schedule']], [tuple(x) for x in rep['nondet']], wd)
+        ok, how = e2replay.classify(rc, err)
+        if not ok and rep.get('assertion', '').startswith('memory:'):
+            rc, err = e2replay.run(exe, [tuple(x) for x in rep['schedule']], [tuple(x) for x in rep['nondet']], wd, valgrind=True)
+            ok, how = e2replay.classify(rc, err)
+        return ok, how
+    finally:
+        import shutil; shutil.rmtree(wd, ignore_errors=True)
+
+
+def run_unit(prop, unit, tier, out, known, workdir):
+    """check.py integration: a unit = a family of scenarios (one clang + interpreter + solver run each), in parallel processes"""
+    from concurrent.futures import ProcessPoolExecutor
+    import check as chk
+    cpp = unit['tu'] if os.path.isabs(unit['tu']) else os.path.join(VERIF, 'harness', unit['tu'])
+    specs = []
+    for sc_ in unit['scenarios']:
+        specs.append({'name': sc_['name'], 'cpp': cpp, 'defines': sc_.get('defines', ()), 'nthreads': sc_['nthreads'],
+                      'opts': dict(unit.get('opts', {}), **sc_.get('opts', {})), 'workdir': workdir, 'mode': sc_.get('mode', unit.get('mode', 'sc')),
+                      'timeout_s': sc_.get('timeout_s', unit.get('timeout_s', 900)), 'mem_gb': unit.get('mem_gb', 10)})
+    jobs = int(os.environ.get('VF_JOBS', str(os.cpu_count() or 4)))
+    t0 = time.time()
+    with ProcessPoolExecutor(max_workers=jobs) as ex:
+        results = list(ex.map(run_scenario, specs))
+    urec = {'name': unit['name'], 'engine': 'E2 irsym+mm+z3 (%s)' % unit.get('mode', 'sc'), 'tu': unit['tu'], 'scenarios': len(specs),
+            'space': unit.get('space', ''), 'bounds': unit.get('bounds', ''), 'outside': unit.get('outside', ''), 'wall_s': round(time.time() - t0, 1),
+            'per_scenario': []}
+    cov = out.cov
+    for r in results:
+        cov['evaluations'] += r.get('n_queries', 0) or 1
+        urec['per_scenario'].append({k: r.get(k) for k in ('name', 'defines', 'nthreads', 'status', 'events', 'paths', 'passes', 'rf_edges', 'n_queries', 'symex_s', 'solver_s', 'wall_s', 'reached')})
+        if r['status'] != 'done':
+            out.undecided.append('%s/%s: %s' % (unit['name'], r['name'], '; '.join(r['undecided'])[:400]))
+            continue
+        for u in r['undecided']:
+            out.undecided.append('%s/%s: %s' % (unit['name'], r['name'], u))
+        cov['states'] += r['events']; cov['transitions'] += r['rf_edges']
+        cov['solver_s'] += r['solver_s']; cov['symex_s'] += r['symex_s']
+        nq = r['n_queries']
+        cov['obligations'] += nq
+        cov['discharged'] += nq - len(r['violations'])
+        if r.get('complete_witness') and (r['reached'] or True):
+            cov['distinct_nontrivial'] += 1
+        out.functions.update(f for f in r.get('functions', []) if f.startswith('_ZN5cocls') or 'cocls' in f)
+        if len(cov['samples']) < 6:
+            cov['samples'].append({'unit': unit['name'], 'scenario': r['name'], 'defines': r['defines'], 'threads': r['nthreads'], 'events': r['events'],
+                                   'paths_per_thread': r['paths'], 'rf_candidate_edges': r['rf_edges'],
+                                   'queries': [(q['name'], q['result'], q['time_s']) for q in r['queries']][:12]})
+        for v in r['violations']:
+            k = chk.known_match(known, prop, unit['name'], v['assertion'], [r['name']])
+            if k is not None:
+                if k not in out.known: out.known.append(k)
+                continue
+            rdir = os.path.join(VERIF, 'replay', prop); os.makedirs(rdir, exist_ok=True)
+            h = hashlib.md5((r['name'] + v['assertion']).encode()).hexdigest()[:10]
+            rpath = os.path.join(rdir, '%s_%s.json' % (r['name'], h))
+            rep = {'property': prop, 'engine': 'e2', 'cpp': unit['tu'], 'defines': r['defines'], 'nthreads': r['nthreads'], 'scenario': r['name'],
+                   'assertion': v['assertion'], 'schedule': v['schedule'], 'nondet': v['nondet'], 'trace': v['trace'],
+                   'replay_outcome': v.get('how')}
+            json.dump(rep, open(rpath, 'w'), indent=1)
+            if v.get('reproduced'):
+                cov['traces_validated_against_impl'] += 1
+                if not any(x[2] == v['assertion'] for x in out.violations):
+                    out.violations.append((prop, rpath, v['assertion'], [r['name']]))
+            else:
+                out.undecided.append('%s/%s: counterexample for "%s" was not reproduced by the forced-schedule native run (%s) - UNCONFIRMED, see %s'
+                                     % (unit['name'], r['name'], v['assertion'], v.get('how'), rpath))
+    cov['units'].append(urec)
 
 
 if __name__ == '__main__':
@@ -91,3 +256,5 @@ if __name__ == '__main__':
             print('   %4d t%d %-4s %-8s %-40s r=%s w=%s  %s' % (row['clk'], row['tid'], row['kind'], row['order'], row['obj'], row['read'], row['write'], row['site'][-50:]))
     r['violations'] = [v['assertion'] for v in r['violations']]
     print(json.dumps(r, indent=1, default=str)[:3000])
+
+
